@@ -32,6 +32,11 @@ const SHARED_SETUP: &[&str] = &[
     "|ff 00 a5| var bs  [ 1 2 3 ] var vv  { 1 \"a\" 2 \"b\" } var mm  \"text\" var ss  0 var cnt",
     "|12 34 56| open-bitstr 4 bits var half  8 bits var mid",
     ": inc cnt 1 + ! cnt ; late later : uses-later later ;",
+    // sub-byte slices whose buffers are referenced by nothing else inside one copy (stale bits behind their end)
+    "[ 0xff ] >bitstr open-bitstr 4 bits close-bitstr var nib  [ 0xa7 0xff ] >bitstr open-bitstr 11 bits close-bitstr var eleven",
+    // … and the same kind of value held by the data stack alone: after a clone the copies share the buffer, and the
+    // last copy to use it owns it alone
+    "[ 0xff ] >bitstr open-bitstr 4 bits close-bitstr  [ 0xa7 0xff ] >bitstr open-bitstr 11 bits close-bitstr  [ 0xff 0xff ] >bitstr open-bitstr 3 bits close-bitstr",
 ];
 
 fn adversarial(r: &mut crate::rng::Rng) -> String {
@@ -43,6 +48,18 @@ fn adversarial(r: &mut crate::rng::Rng) -> String {
         "ss \"x\" 2 collect concat ! ss", "inc inc", "cnt 5 + ! cnt", ": later 42 ;", "uses-later drop", ": inc cnt 10 + ! cnt ;",
         "bs length drop", "vv length ! cnt", "7 var fresh", "bs", "drop", "[ 1 2 ] foreach I ! cnt loop", "3 0 do cnt 1 + ! cnt loop",
         "bs emit", "\"out\" print", "cnt println",
+        // appends whose tail differs from the stale bits behind a sub-byte slice (in-place vs copy path)
+        "half |0| bitstr-append ! half", "half |5| bitstr-append", "|0| half bitstr-append ! half", "mid |00| bitstr-append ! mid", "half |0| bitstr-append mid bitstr-append ! bs",
+        "[ 0xff ] >bitstr open-bitstr 4 bits close-bitstr |0| bitstr-append ! half", "half half bitstr-append |0| bitstr-append ! mid",
+        "nib |0| bitstr-append ! nib", "nib |0| bitstr-append ! half", "eleven |00| bitstr-append ! eleven", "nib |5| bitstr-append ! nib", "eleven nib bitstr-append ! eleven",
+        "|0| bitstr-append", "|00| bitstr-append ! bs", "|0| bitstr-append |0| bitstr-append", "|5| swap bitstr-append", "|0| bitstr-append dup ! half",
+        // the stack of suspended inputs belongs to one copy
+        "|CC DD EE| open-bitstr", "close-bitstr", "u8 ! cnt", "offset ! cnt", "remain ! cnt", "|AA BB| open-bitstr u8 drop", "|01 02 03| open-bitstr u8 drop |04| open-bitstr", "close-bitstr close-bitstr",
+        "input ! bs", "8 bits ! mid",
+        // where a value starts inside its buffer must not show (open-bitstr takes `offset` from it)
+        "mid |FF| bitstr-append open-bitstr offset ! cnt close-bitstr", "|FF| mid bitstr-append open-bitstr offset ! cnt close-bitstr",
+        "mid |FF| swap bitstr-append open-bitstr offset remain + ! cnt close-bitstr", "half mid bitstr-append open-bitstr offset ! cnt u8 drop close-bitstr",
+        "[ 1 2 3 ] >bitstr open-bitstr 8 bits drop 8 bits close-bitstr ! mid",
     ];
     let n = r.below(3) + 1;
     (0..n).map(|_| *r.pick(&pool)).collect::<Vec<_>>().join(" ")
@@ -164,6 +181,55 @@ pub fn run(ctx: &mut Ctx) {
             let h = history.join("; ");
             ctx.check(ra == rb && sa == sb, || format!("C03 replay after [{}] of {:?}", h, srcs), || format!("{:?} {}", ra, sa), || format!("{:?} {}", rb, sb));
             ctx.tag("determinism-check");
+            // origin vs snapshot: the snapshot is taken, the same sources are given first to the origin and then to the
+            // snapshot (by then the origin may have detached from shared buffers, so the snapshot owns them alone)
+            let mut snap = pool[i].xs.clone();
+            let mut srcs = Vec::new();
+            for _ in 0..3 { srcs.push(adversarial(&mut ctx.rng)); }
+            let mut ro = Vec::new(); let mut rs = Vec::new();
+            for s in &srcs { ro.push(format!("{:?}", crate::guarded(|| pool[i].xs.eval(s)).map(|r| r.map_err(|e| canon::err(&e))))); }
+            for s in &srcs { rs.push(format!("{:?}", crate::guarded(|| snap.eval(s)).map(|r| r.map_err(|e| canon::err(&e))))); }
+            let (so, ss) = (snapshot(&mut pool[i].xs), snapshot(&mut snap));
+            let h = history.join("; ");
+            ctx.check(ro == rs && so == ss, || format!("C03 origin vs snapshot after [{}] of {:?}", h, srcs), || format!("{:?} {}", ro, so), || format!("{:?} {}", rs, ss));
+            ctx.tag("origin-vs-snapshot-check");
+            // the same probe on an interpreter and on two snapshots of it, one after the other: values held by the data
+            // stack alone are shared by all three until the last one uses them (and then owns the buffer alone)
+            {
+                let seeder = *ctx.rng.pick(&["[ 0xff ] >bitstr open-bitstr 4 bits close-bitstr", "[ 0xa7 0xff ] >bitstr open-bitstr 11 bits close-bitstr",
+                    "[ 1 2 3 ] >bitstr open-bitstr 8 bits drop 8 bits close-bitstr", "|ff ff| open-bitstr 3 bits drop 6 bits close-bitstr", "|12 34 56| 4 20 slice", "bs 3 9 slice"]);
+                let probe = *ctx.rng.pick(&["|0| bitstr-append", "|0| swap bitstr-append", "|00| bitstr-append dup ! bs", "|FF| swap bitstr-append open-bitstr offset remain u8 close-bitstr",
+                    "bitstr-not", "dup bitstr-not bitstr-append", "|0| bitstr-append |1| bitstr-append", "dup |5| bitstr-append swap |a| bitstr-append", "open-bitstr offset remain close-bitstr"]);
+                let mut x = pool[i].xs.clone();
+                let _ = crate::guarded(|| x.eval(seeder));
+                let mut y = x.clone();
+                let mut z = y.clone();
+                let mut sigs = Vec::new();
+                for c in [&mut x, &mut y, &mut z] {
+                    let r = format!("{:?}", crate::guarded(|| c.eval(probe)).map(|r| r.map_err(|e| canon::err(&e))));
+                    sigs.push(format!("{} {}", r, snapshot(c)));
+                }
+                ctx.check(sigs[0] == sigs[1] && sigs[1] == sigs[2], || format!("C03 `{}` then 2 snapshots, `{}` on each in turn", seeder, probe), || sigs[0].clone(), || format!("{} // {}", sigs[1], sigs[2]));
+                ctx.tag("same-probe-on-three-copies");
+            }
+            // a snapshot taken while recording can be stepped back exactly like its origin
+            let mut o = pool[i].xs.clone();
+            o.set_recording_enabled(true);
+            let (prog, _) = gen_program(&mut ctx.rng, &cfg);
+            if let Some(Ok(())) = crate::guarded(|| o.compile(&prog)) {
+                for _ in 0..(ctx.rng.below(25) + 3) { if crate::guarded(|| o.next()).map(|r| r.is_err()).unwrap_or(true) { break; } }
+                let mut c = o.clone();
+                let back = ctx.rng.below(12) + 1;
+                let mut ok = true;
+                let mut detail = String::new();
+                for k in 0..back {
+                    let (r1, r2) = (crate::guarded(|| o.rnext()).map(|r| r.is_ok()), crate::guarded(|| c.rnext()).map(|r| r.is_ok()));
+                    let (d1, d2) = (snapshot(&mut o), snapshot(&mut c));
+                    if r1 != r2 || d1 != d2 { ok = false; detail = format!("after {} reverse steps: origin {:?} {} / snapshot {:?} {}", k + 1, r1, d1, r2, d2); break; }
+                }
+                ctx.check(ok, || format!("C03 reverse-stepping a snapshot of `{}`", prog), || "origin and snapshot step back identically".into(), || detail.clone());
+                ctx.tag("recording-snapshot-check");
+            }
         }
     }
 }
